@@ -289,7 +289,20 @@ def rule_pool_shape(chk, repo):
                     binds.append(unparse(sem.expand_names(f.node, n, n.value)))
         else:
             binds.append(unparse(sem.expand_names(f.node, repo.enclosing_stmt(calls[0]), k)))
-    want_b = {'False', 'anno.transcripts[protein.transcript_id].is_cds_start_nf()'}
+    def leaves(text):
+        e_ = ast.parse(text, mode='eval').body
+        out_ = []
+
+        def rec(x):
+            if isinstance(x, ast.IfExp):
+                rec(x.body)
+                rec(x.orelse)
+            else:
+                out_.append(unparse(x))
+        rec(e_)
+        return out_
+    binds = [l_ for b_ in binds for l_ in leaves(b_)]
+    want_b = {'False', f'anno.transcripts[{P}.transcript_id].is_cds_start_nf()'}
     ok = k is not None and set(binds) == want_b
     chk.ob('C10.c', 'cds_start_nf read from the annotation and passed to enzymatic_cleave', repo.loc(f, calls[0]), ok,
            f"cds_start_nf bindings {binds}, passed {unparse(k) if k is not None else None}", key=POOL + '::cds_start_nf', fn=f.qual)
